@@ -178,6 +178,7 @@ func profDirLock(en *Env) {
 	}
 	r := en.R
 	attempts := 0
+	nkind := 0
 	for rd := 0; rd < rounds; rd++ {
 		dir := en.FreshDir()
 		fresh := rd%3 == 0
@@ -268,15 +269,45 @@ func profDirLock(en *Env) {
 				res := kids[p].recv()
 				en.T.Emit(h.Ev{"ev": "lk", "o": o, "act": "close", "res": res, "same": true})
 				delete(open, o)
-			case x < 83 && len(open) == 0 && !fresh && len(orig) > 20:
-				// damage / repair the directory while nobody has it open
+			case x < 88 && len(open) == 0 && !fresh && len(orig) > 20:
+				// damage / repair the directory while nobody has it open; the damage makes Open fail in one of
+				// its three loading phases (DirLock.tla): listing the names, opening the files, reading the records
 				corrupt = !corrupt
+				stray := filepath.Join(dir, "backup.data")         // a data-file suffix without a numeric id
+				asDir := filepath.Join(dir, "000000007.data")      // a data file that cannot be opened (it is a directory)
+				os.Remove(stray)
+				os.Remove(asDir)
 				b := append([]byte(nil), orig...)
+				kind := "no"
 				if corrupt {
-					b[10] ^= 0x55
+					kind = []string{"index", "names", "files"}[nkind%3]
+					nkind++
+					switch kind {
+					case "index":
+						b[10] ^= 0x55
+					case "names":
+						os.WriteFile(stray, []byte("x"), 0644)
+					case "files":
+						os.Mkdir(asDir, 0755)
+					}
 				}
 				os.WriteFile(dataFile, b, 0644)
-				en.T.Emit(h.Ev{"ev": "setdir", "corrupt": corrupt})
+				en.T.Emit(h.Ev{"ev": "setdir", "corrupt": corrupt, "kind": kind})
+				// an Open right away (it must fail on a damaged directory and succeed on a repaired one), then one
+				// by another process: a lock leaked by the failed Open of the first shows as "inuse" here
+				for j := 0; j < 2; j++ {
+					p2 := (p + j) % len(kids)
+					o2 := (p2+1)*10 + g
+					before := fingerprint(dir)
+					kids[p2].send("open %d %s", g, dir)
+					res := kids[p2].recv()
+					en.T.Emit(h.Ev{"ev": "lk", "o": o2, "act": "open", "res": res, "same": before == fingerprint(dir)})
+					attempts++
+					if res == "ok" {
+						open[o2] = true
+						break
+					}
+				}
 			case x < 95:
 				race()
 			}
